@@ -146,6 +146,21 @@ func c18Graph(c *fw.Ctx, label, side string, aids []*ast.Ident, dids []*dst.Iden
 			if want := nodeOf(decl); want != nil && want != dn {
 				viol("decl-link", "decl-link:target:"+refl.TypeName(decl), fmt.Sprintf("object %q: Decl does not point at the counterpart of the declaring %T", ao.Name, decl))
 			}
+			// the cycle closes: the identifiers inside the declaring node that carry this object
+			na, nd := 0, 0
+			for _, x := range identSeqAst(decl) {
+				if x.Obj == ao {
+					na++
+				}
+			}
+			for _, x := range identSeqDst(dn) {
+				if x.Obj == do {
+					nd++
+				}
+			}
+			if na != nd {
+				viol("decl-link", "decl-link:declaring-identifier:"+refl.TypeName(decl), fmt.Sprintf("object %q: %d identifier(s) of its ast declaration carry it, %d of its dst declaration", ao.Name, na, nd))
+			}
 			c.Count("decl_links_followed", 1)
 		case *ast.Scope:
 			if _, ok := do.Decl.(*dst.Scope); !ok {
@@ -526,6 +541,23 @@ func c18PackageOnce(c *fw.Ctx, id string, srcs map[string]string, withImporter b
 		c.Count("packages", 1)
 		if len(apkg.Scope.Objects) >= 5 {
 			c.Nontrivial(id)
+		}
+		// each file of the resolved package restored on its own with Extras (the declarations of
+		// objects declared in sibling files lie outside the restored file)
+		for _, n := range names {
+			r := decorator.NewRestorer()
+			r.Extras = true
+			var rf *ast.File
+			var rerr error
+			if sig, detail := fw.Try(func() { rf, rerr = r.RestoreFile(dfiles[n]) }); sig != "" {
+				c.Violate("restore-panic", sig, id+"/"+n+" [resolved package, Extras]\n"+detail, srcs[n])
+				continue
+			}
+			if rerr != nil || rf == nil {
+				continue
+			}
+			c18Graph(c, id+"/"+n+" [resolved package]", "restorer", identSeqAst(rf), identSeqDst(dfiles[n]), func(a ast.Node) dst.Node { return r.Dst.Nodes[a] }, srcs[n])
+			c.Count("resolved_package_files_restored", 1)
 		}
 		// a second run over the same files minus one (Unresolved lists put back on both sides): the
 		// identifiers bound in the first run are looked up again, in the smaller package
